@@ -253,6 +253,8 @@ CHECKS["C17"] = dict(
 CHECKS["C11"]["parts"].append(dict(name="netns", pkg="internal/system", test="TestVerifC11Netns", shards={"quick": 4, "thorough": 8}, wrap=NETNS, gogc_off=True,
                                    env={"VERIF_IN_NETNS_EXPECTED": "1"}, timeout_s={"quick": 300, "thorough": 1800}))
 
+CHECKS["C11"]["require_counters"] = {"quick": {"listen_failed_on_tentative_address": 2}, "thorough": {"listen_failed_on_tentative_address": 4}}
+
 def daemon_part(prop, shards):
     return dict(name="daemon", pkg="cmd/corerad", test="TestVerifDaemon", shards={"quick": shards, "thorough": shards}, wrap=NETNS, min_evals=0,
                 env={"VERIF_PROP": prop}, timeout_s={"quick": 240, "thorough": 600})
